@@ -20,6 +20,12 @@ type fdstr struct {
 	tab []string
 }
 
+// decTerm is a rope part: the decimal rendering of a symbolic integer (opaque).
+type decTerm struct {
+	k types.BasicKind
+	t *Term
+}
+
 // ropestr is a concatenation of string values (string, *symstr, *fdstr) that is
 // kept unflattened so that building text out of symbolic pieces does not fork.
 type ropestr struct {
@@ -95,13 +101,15 @@ func (i *interpreter) strBytes(v value) []value {
 			out = append(out, i.strBytes(p)...)
 		}
 		return out
+	case *decTerm:
+		return i.strBytes(fmt.Sprint(mkScalar(s.k, i.concretize(sym{s.k, s.t}))))
 	}
 	panic(fmt.Sprintf("strBytes(%T)", v))
 }
 
 func isStr(v value) bool {
 	switch v.(type) {
-	case string, *symstr, *fdstr, *ropestr:
+	case string, *symstr, *fdstr, *ropestr, *decTerm:
 		return true
 	}
 	return false
@@ -215,12 +223,20 @@ func (i *interpreter) strLen(v value) value {
 			acc = i.binop(tokenADD, nil, acc, i.strLen(p))
 		}
 		return acc
+	case *decTerm:
+		return len(i.concString(s))
 	}
 	panic(fmt.Sprintf("strLen(%T)", v))
 }
 
 // strEq returns x == y as bool or sym.
 func (i *interpreter) strEq(x, y value) value {
+	if d, ok := x.(*decTerm); ok {
+		x = i.concString(d)
+	}
+	if d, ok := y.(*decTerm); ok {
+		y = i.concString(d)
+	}
 	if r, ok := x.(*ropestr); ok {
 		x = mkStr(i.strBytes(r))
 	}
@@ -346,6 +362,12 @@ func (i *interpreter) strConcat(x, y value) value {
 				return r
 			}
 		}
+	}
+	if _, ok := x.(*decTerm); ok {
+		return mkRope(x, y)
+	}
+	if _, ok := y.(*decTerm); ok {
+		return mkRope(x, y)
 	}
 	_, xs := x.(*symstr)
 	_, ys := y.(*symstr)
@@ -617,6 +639,8 @@ func (i *interpreter) showString(v value) string {
 			sb.WriteString(i.showString(p))
 		}
 		return sb.String()
+	case *decTerm:
+		return fmt.Sprint(mkScalar(s.k, i.evalTerm(s.t)))
 	}
 	return fmt.Sprintf("<%T>", v)
 }
@@ -644,6 +668,8 @@ func (i *interpreter) concString(v value) string {
 			out += i.concString(p)
 		}
 		return out
+	case *decTerm:
+		return fmt.Sprint(mkScalar(s.k, i.concretize(sym{s.k, s.t})))
 	}
 	panic(fmt.Sprintf("concString(%T)", v))
 }
